@@ -566,6 +566,7 @@ func TestC14Positions(t *testing.T) {
 type c14MatrixCase struct {
 	E     *lib.Node `json:"e"`
 	Where bool      `json:"where"` // place E as the WHERE clause instead of a select field
+	Aggr  bool      `json:"aggr"`  // place E as a select field next to an aggregate, grouped by key
 	Query string    `json:"query"`
 }
 
@@ -583,6 +584,11 @@ func checkC14Matrix(c *c14MatrixCase) (msg string, accepted bool) {
 	st := &lib.Stmt{Kind: "select", Fields: []lib.SelField{{E: lib.Key()}, {E: c.E}}, Where: lib.Bin("!=", lib.Key(), lib.Str(""))}
 	if c.Where {
 		st = &lib.Stmt{Kind: "select", Star: true, Where: c.E}
+	}
+	if c.Aggr {
+		// the value of such a field is kept once per group: whether its type
+		// can be kept is known when the plan is built
+		st = &lib.Stmt{Kind: "select", Fields: []lib.SelField{{E: c.E, Alias: "e1"}, {E: lib.Call("count", lib.Int(1))}}, Where: lib.Bin("!=", lib.Key(), lib.Str("")), Group: []string{"key"}}
 	}
 	q := st.Render()
 	c.Query = q
@@ -603,7 +609,7 @@ func checkC14Matrix(c *c14MatrixCase) (msg string, accepted bool) {
 		if res.Panic != "" {
 			return fmt.Sprintf("executing %q [%s] panicked: %s", q, cfg, res.Panic), true
 		}
-		if res.ExecErr != nil && isOperandTypeError(res.ExecErr) {
+		if res.ExecErr != nil && (isOperandTypeError(res.ExecErr) || strings.Contains(res.ExecErr.Error(), "result type not support")) {
 			return fmt.Sprintf("statement %q is accepted when the plan is built but fails at run time [%s] with an operand-type error: %v (storage calls before the failure: %d)", q, cfg, res.ExecErr, len(in.Calls())), true
 		}
 	}
@@ -638,12 +644,12 @@ func TestC14Matrix(t *testing.T) {
 	binops := []string{"=", "!=", "<", "<=", ">", ">=", "^=", "~=", "+", "-", "*", "/", "&", "|", "and", "or"}
 	idx := 0
 	emit := func(e *lib.Node, label string) {
-		for _, where := range []bool{false, true} {
+		for _, place := range []string{"field", "where", "beside-aggregate"} {
 			idx++
 			if !lib.Mine(idx) {
 				continue
 			}
-			c := &c14MatrixCase{E: e.Clone(), Where: where}
+			c := &c14MatrixCase{E: e.Clone(), Where: place == "where", Aggr: place == "beside-aggregate"}
 			lib.Journal("C14", "c14matrix", c)
 			msg, acc := checkC14Matrix(c)
 			verdict := "rejected"
@@ -677,5 +683,7 @@ func TestC14Matrix(t *testing.T) {
 			}
 		}
 		emit(lib.Not(l.mk()), "!"+l.ty)
+		// the operand forms themselves (a bare list beside an aggregate)
+		emit(l.mk(), "bare "+l.ty)
 	}
 }
